@@ -347,6 +347,14 @@ def required_batches(prop, tier, seed, work, res, quick):
             cases.append({"cid": cid, "w": "WRiN", "val": {"f": {"1": {"nil": False, "items": [{"p": 1, "v": ri}]}, "2": {"p": 1, "v": ri}}, "unk": []},
                           "ord": ORDS[n % 4], "trail": [], "mut": "none"})
             plans[cid] = ("TRiN", "required-init-nested")
+    # thrift-tag-only reader: every subset of its two required fields
+    for a in (0, 1):
+        for b in (0, 1):
+            n += 1
+            cid = "C09-thr-%d%d-%d" % (a, b, n)
+            cases.append({"cid": cid, "w": "WLeaf", "val": {"f": {"1": {"p": 1, "v": [0, 0, 0, 5]} if a else {"p": 0}, "64": {"p": 1, "v": list(b"x")} if b else {"p": 0}}, "unk": []},
+                          "ord": ORDS[n % 4], "trail": [], "mut": "none"})
+            plans[cid] = ("TThr", "thrift-tags-only")
     # list / set confusion: the writer's set arrives where the reader requires a list (and the other way round)
     for a in (0, 1):
         n += 1
@@ -389,6 +397,10 @@ def required_batches(prop, tier, seed, work, res, quick):
         if k % 3 == 0:
             # a predecessor decode of the same type that sets every presence bit
             steps.append({"op": "decode", "ty": t, "in": allmsg[t][0], "dest": "fresh"})
+        elif k % 3 == 1 and len(allmsg[t]) > 2:
+            # predecessors of the same type that were REJECTED (they carried some required ids and lacked others)
+            steps.append({"op": "decode", "ty": t, "in": allmsg[t][(k // 3) % len(allmsg[t])], "dest": "fresh"})
+            steps.append({"op": "decode", "ty": t, "in": allmsg[t][(k // 3 + 1) % len(allmsg[t])], "dest": "fresh"})
         steps.append({"op": "decode", "ty": t, "in": m, "dest": "fresh"})
         scen.append({"sid": cid, "prop": prop, "vals": [], "steps": steps, "tags": [label], "dkey": cid})
     return [Batch("required", defs, scen), required_encode_batch(prop, quick)]
